@@ -306,7 +306,7 @@ func (c *Ctx) c05Constructor(sib string) {
 		}
 		var write *pw.Event
 		for _, ev := range p.Events {
-			if ev.Kind == pw.EvFieldWrite && ev.Field != nil && ev.Field.Name() == "Errors" {
+			if ev.Kind == pw.EvFieldWrite && ev.Field != nil && fname(ev.Field) == "Errors" {
 				write = ev
 			}
 		}
@@ -314,7 +314,7 @@ func (c *Ctx) c05Constructor(sib string) {
 		var ttl *pw.Val
 		var orig *pw.Val
 		for _, ev := range p.Events {
-			if ev.Field != nil && ev.Field.Name() == "FailedUpdateTTL" {
+			if ev.Field != nil && fname(ev.Field) == "FailedUpdateTTL" {
 				switch ev.Kind {
 				case pw.EvFieldWrite:
 					if ev.Value != nil && ev.Value.Type != nil {
